@@ -4,6 +4,7 @@ native implementation (used by the run-time monitor); these pairs are the only p
 texts exist, and `pyvc.run.cross_check` compares them on concrete samples (DESIGN §2.8).
 """
 import z3
+from .types import fresh_name  # noqa
 from . import ops
 from .ops import Unsupported, TRUE, FALSE
 from .types import (TInt, TReal, TBool, TStr, TList, TTuple, TDict, TOpt, TGraph, Val, lift, fresh_name)
@@ -323,7 +324,7 @@ def _s_node_attrs(eng, st, g, k):
 
 
 def _n_dvsum(d, k):
-    return sum(list(d.values())[:k])
+    return _NG.Num(sum(list(d.values())[:k]))
 
 
 @spec('dvsum', _n_dvsum, ret=TReal)
@@ -340,7 +341,7 @@ def _s_dvsum(eng, st, d, k):
 
 
 def _n_wpsum(d, g, k):
-    return sum(g.nodes[n]['position'] * w for n, w in list(d.items())[:k])
+    return _NG.Num(sum(g.nodes[n]['position'] * w for n, w in list(d.items())[:k]))
 
 
 @spec('wpsum', _n_wpsum, ret=TReal)
@@ -359,3 +360,218 @@ def _s_wpsum(eng, st, d, g, k):
     st.assume(z3.Implies(kt <= 0, F(d.t, pos, kt) == 0),
               z3.Implies(kt > 0, F(d.t, pos, kt) == F(d.t, pos, kt - 1) + pos[nk] * w))
     return Val(TReal, F(d.t, pos, kt))
+
+
+# ---------------------------------------------------------------------------- attribute-wise comparisons
+def _n_same_node_attrs(g1, n1, g2, n2, skip):
+    a = {k: v for k, v in g1.nodes[n1].items() if k not in skip}
+    b = {k: v for k, v in g2.nodes[n2].items() if k not in skip}
+    return _deep_eq(a, b)
+
+
+def _deep_eq(a, b):
+    import numpy as np
+    import networkx as nx
+    if isinstance(a, dict) and isinstance(b, dict):
+        return a.keys() == b.keys() and all(_deep_eq(a[k], b[k]) for k in a)
+    if isinstance(a, (list, tuple)) and isinstance(b, (list, tuple)):
+        return len(a) == len(b) and all(_deep_eq(x, y) for x, y in zip(a, b))
+    if isinstance(a, np.ndarray) or isinstance(b, np.ndarray):
+        return bool(np.array_equal(a, b))
+    if isinstance(a, nx.Graph) and isinstance(b, nx.Graph):
+        return a is b or (list(a.nodes(data=True)) == list(b.nodes(data=True)) and list(a.edges(data=True)) == list(b.edges(data=True)))
+    return a == b
+
+
+@spec('same_node_attrs', _n_same_node_attrs)
+def _s_same_node_attrs(eng, st, g1, n1, g2, n2, skip):
+    """Every attribute except the listed ones is present on both or on neither, with equal values (incl. the opaque rest)."""
+    from .models import PyList
+    skipped = set()
+    for item in skip.items if isinstance(skip, PyList) else []:
+        skipped.add(_cstr(item))
+    h = st.heap
+    s1, s2 = _H.NODE_SCHEMAS[g1.ty.schema], _H.NODE_SCHEMAS[g2.ty.schema]
+    parts = []
+    for name in sorted(set(s1) | set(s2)):
+        if name in skipped:
+            continue
+        if name in s1 and name in s2 and s1[name][0] == s2[name][0]:
+            suf = s1[name][0]
+            parts.append(h.nhas(g1.t, n1.t, suf) == h.nhas(g2.t, n2.t, suf))
+            parts.append(z3.Implies(h.nhas(g1.t, n1.t, suf), h.nval(g1.t, n1.t, suf) == h.nval(g2.t, n2.t, suf)))
+        else:
+            for (sch, g, n) in ((s1, g1, n1), (s2, g2, n2)):
+                if name in sch:
+                    parts.append(z3.Not(h.nhas(g.t, n.t, sch[name][0])))
+    parts.append(h.get('rest')[g1.t][n1.t] == h.get('rest')[g2.t][n2.t])
+    return Val(TBool, z3.And(*parts))
+
+
+def _n_same_edge_attrs(g1, u1, v1, g2, u2, v2):
+    return _deep_eq(dict(g1.edges[u1, v1]), dict(g2.edges[u2, v2]))
+
+
+@spec('same_edge_attrs', _n_same_edge_attrs)
+def _s_same_edge_attrs(eng, st, g1, u1, v1, g2, u2, v2):
+    h = st.heap
+    parts = []
+    for name, (suf, ty) in _H.EDGE_SCHEMA.items():
+        parts.append(h.ehas(g1.t, u1.t, v1.t, suf) == h.ehas(g2.t, u2.t, v2.t, suf))
+        parts.append(z3.Implies(h.ehas(g1.t, u1.t, v1.t, suf), h.evalue(g1.t, u1.t, v1.t, suf) == h.evalue(g2.t, u2.t, v2.t, suf)))
+    return Val(TBool, z3.And(*parts))
+
+
+def _n_max_node_key(g):
+    return max(g.nodes)
+
+
+@spec('max_node_key', _n_max_node_key, ret=TInt)
+def _s_max_node_key(eng, st, g):
+    """max(G.nodes) as a function of the node list (defined when the graph is not empty)."""
+    lst = st.heap.nodes(g.t)
+    F = _fold_uf('max_node_key', lst.sort(), z3.IntSort())
+    m = F(lst, z3.IntVal(0))
+    arr, ln = _H.T_NODELIST.arr(lst), _H.T_NODELIST.length(lst)
+    j = z3.Int(fresh_name('mj'))
+    k = z3.Int(fresh_name('mk'))
+    st.assume(z3.Implies(ln > 0, z3.And(z3.Exists([j], z3.And(0 <= j, j < ln, arr[j] == m)),
+                                        z3.ForAll([k], z3.Implies(z3.And(0 <= k, k < ln), arr[k] <= m)))))
+    return Val(TInt, m)
+
+
+def _n_list_max(xs):
+    return max(xs)
+
+
+@spec('list_max', _n_list_max, ret=TInt)
+def _s_list_max(eng, st, xs):
+    F = _fold_uf('list_max', xs.ty.sort(), z3.IntSort())
+    m = F(xs.t, z3.IntVal(0))
+    arr, ln = ops.list_arr(xs), ops.list_len(xs)
+    j = z3.Int(fresh_name('mj'))
+    k = z3.Int(fresh_name('mk'))
+    st.assume(z3.Implies(ln > 0, z3.And(z3.Exists([j], z3.And(0 <= j, j < ln, arr[j] == m)),
+                                        z3.ForAll([k], z3.Implies(z3.And(0 <= k, k < ln), arr[k] <= m)))))
+    return Val(TInt, m)
+
+
+def _n_edge_index(g, u, v):
+    for i, (a, b) in enumerate(g.edges):
+        if (a, b) == (u, v) or (a, b) == (v, u):
+            return i
+    return -1
+
+
+@spec('edge_index', _n_edge_index, ret=TInt)
+def _s_edge_index(eng, st, g, u, v):
+    return Val(TInt, st.heap.get('eidx')[g.t][u.t][v.t])
+
+
+# ---------------------------------------------------------------------------- frame helpers (current heap vs old heap)
+OLD_SPECS = {'node_unchanged', 'edge_unchanged'}
+
+
+def _n_node_unchanged2(g, g_old, n):
+    return n in g.nodes and n in g_old.nodes and _deep_eq(dict(g.nodes[n]), dict(g_old.nodes[n]))
+
+
+def _n_edge_unchanged2(g, g_old, u, v):
+    if g.has_edge(u, v) != g_old.has_edge(u, v):
+        return False
+    return (not g.has_edge(u, v)) or _deep_eq(dict(g.edges[u, v]), dict(g_old.edges[u, v]))
+
+
+NATIVE_OLD = {'node_unchanged': _n_node_unchanged2, 'edge_unchanged': _n_edge_unchanged2}
+
+
+@spec('node_unchanged', None)
+def _s_node_unchanged(eng, st, g, n, old=None):
+    if old is None:
+        raise Unsupported('node_unchanged outside a two-state context')
+    h, o = st.heap, old.heap
+    parts = [h.has_node(g.t, n.t) == o.has_node(g.t, n.t), h.get('rest')[g.t][n.t] == o.get('rest')[g.t][n.t]]
+    for suf in h.all_node_attr_comps():
+        parts.append(h.nhas(g.t, n.t, suf) == o.nhas(g.t, n.t, suf))
+        parts.append(z3.Implies(h.nhas(g.t, n.t, suf), h.nval(g.t, n.t, suf) == o.nval(g.t, n.t, suf)))
+    return Val(TBool, z3.And(*parts))
+
+
+@spec('edge_unchanged', None)
+def _s_edge_unchanged(eng, st, g, u, v, old=None):
+    if old is None:
+        raise Unsupported('edge_unchanged outside a two-state context')
+    h, o = st.heap, old.heap
+    parts = [h.has_edge(g.t, u.t, v.t) == o.has_edge(g.t, u.t, v.t)]
+    for suf in h.all_edge_attr_comps():
+        parts.append(h.ehas(g.t, u.t, v.t, suf) == o.ehas(g.t, u.t, v.t, suf))
+        parts.append(z3.Implies(h.ehas(g.t, u.t, v.t, suf), h.evalue(g.t, u.t, v.t, suf) == o.evalue(g.t, u.t, v.t, suf)))
+    return Val(TBool, z3.And(*parts))
+
+
+def _n_same_attr(g1, n1, g2, n2, k):
+    a, b = g1.nodes[n1], g2.nodes[n2]
+    return (k in a) == (k in b) and (k not in a or _deep_eq(a[k], b[k]))
+
+
+@spec('same_attr', _n_same_attr)
+def _s_same_attr(eng, st, g1, n1, g2, n2, k):
+    name = _cstr(k)
+    h = st.heap
+    s1, s2 = _H.NODE_SCHEMAS[g1.ty.schema][name], _H.NODE_SCHEMAS[g2.ty.schema][name]
+    if s1[0] != s2[0]:
+        raise Unsupported('attribute %s has different representations in the two graph kinds' % name)
+    suf = s1[0]
+    return Val(TBool, z3.And(h.nhas(g1.t, n1.t, suf) == h.nhas(g2.t, n2.t, suf),
+                             z3.Implies(h.nhas(g1.t, n1.t, suf), h.nval(g1.t, n1.t, suf) == h.nval(g2.t, n2.t, suf))))
+
+
+KNOWN_ATTRS = ('bonding', 'fragid', 'fragname', 'atomname', 'element', 'aromatic', 'hcount', 'charge', 'weight', 'graph',
+               'mapping', 'position', 'ez_isomer_atoms', 'single_h_frag', 'order')
+
+
+def _n_same_other_attrs(g1, n1, g2, n2):
+    a = {k: v for k, v in g1.nodes[n1].items() if k not in KNOWN_ATTRS}
+    b = {k: v for k, v in g2.nodes[n2].items() if k not in KNOWN_ATTRS}
+    return _deep_eq(a, b)
+
+
+@spec('same_other_attrs', _n_same_other_attrs)
+def _s_same_other_attrs(eng, st, g1, n1, g2, n2):
+    """All attributes outside the modelled schema (one opaque value per node)."""
+    h = st.heap
+    return Val(TBool, h.get('rest')[g1.t][n1.t] == h.get('rest')[g2.t][n2.t])
+
+
+def _n_same_has_attr(g1, n1, g2, n2, k):
+    return (k in g1.nodes[n1]) == (k in g2.nodes[n2])
+
+
+@spec('same_has_attr', _n_same_has_attr)
+def _s_same_has_attr(eng, st, g1, n1, g2, n2, k):
+    name = _cstr(k)
+    h = st.heap
+    s1, s2 = _H.NODE_SCHEMAS[g1.ty.schema][name], _H.NODE_SCHEMAS[g2.ty.schema][name]
+    return Val(TBool, h.nhas(g1.t, n1.t, s1[0]) == h.nhas(g2.t, n2.t, s2[0]))
+
+
+def _n_node_index(g, n):
+    return list(g.nodes).index(n)
+
+
+@spec('node_index', _n_node_index, ret=TInt)
+def _s_node_index(eng, st, g, n):
+    return Val(TInt, st.heap.node_index(g.t, n.t))
+
+
+def _n_same_eattr(g1, u1, v1, g2, u2, v2, k):
+    a, b = g1.edges[u1, v1], g2.edges[u2, v2]
+    return (k in a) == (k in b) and (k not in a or _deep_eq(a[k], b[k]))
+
+
+@spec('same_eattr', _n_same_eattr)
+def _s_same_eattr(eng, st, g1, u1, v1, g2, u2, v2, k):
+    suf, ty = _H.EDGE_SCHEMA[_cstr(k)]
+    h = st.heap
+    return Val(TBool, z3.And(h.ehas(g1.t, u1.t, v1.t, suf) == h.ehas(g2.t, u2.t, v2.t, suf),
+                             z3.Implies(h.ehas(g1.t, u1.t, v1.t, suf), h.evalue(g1.t, u1.t, v1.t, suf) == h.evalue(g2.t, u2.t, v2.t, suf))))
